@@ -2,6 +2,7 @@
 C15 — Retries are bounded, spaced as configured, and never overlap for one object.
 Property theorems only (obligations of ./check C15).
 -/
+import LfsModel.AuthLoop
 import LfsModel.Gen
 import LfsModel.TQRetry
 import LfsModel.TQTraceProofs
@@ -140,5 +141,38 @@ theorem check_at_use_is_stricter (a : Expiry.Action) (t0 t1 margin : Int) (hle :
 /-- non-vacuity: expires_in 6 s, asked 2.3 s and 6.6 s after the request, margin 5 s -/
 example : Expiry.usable ⟨0, none, 6⟩ 500 5000 = true ∧ Expiry.usable ⟨0, none, 6⟩ 2300 5000 = false ∧
     Expiry.usable ⟨0, some 3600000, 6⟩ 6600 0 = false := by decide
+
+/-! ### re-authentication is bounded too (lfsapi.Client.DoWithAuth) -/
+
+/-- a request answered with an authentication error is submitted again only while resubmissions are left: at most
+    `fuel + 1` submissions, whatever the server answers and whatever the credential helper hands out -/
+theorem auth_resubmissions_bounded (again : Nat → Bool) (fuel k : Nat) :
+    AuthLoop.submissions again fuel k ≤ fuel + 1 := AuthLoop.submissions_le again fuel k
+
+/-- a server that always refuses, with a helper that always answers: exactly `fuel + 1` (D73: there was no bound) -/
+theorem auth_resubmissions_always_refused (fuel k : Nat) :
+    AuthLoop.submissions (fun _ => true) fuel k = fuel + 1 := AuthLoop.submissions_always fuel k
+
+/-- ties to lfsapi/auth.go as it is in /repo now: DoWithAuth starts with `defaultMaxAuthAttempts` resubmissions, the
+    only further call passes one less and stands under `resubmissions > 0` -/
+theorem gen_auth_resubmission :
+    Gen.defaultMaxAuthAttempts = 3 ∧
+    Gen.authResubmitEntry =
+      [
+       -- remote, access, req, defaultMaxAuthAttempts | 
+       [114, 101, 109, 111, 116, 101, 44, 32, 97, 99, 99, 101, 115, 115, 44, 32, 114, 101, 113, 44, 32, 100, 101, 102, 97, 117, 108, 116, 77, 97, 120, 65, 117, 116, 104, 65, 116, 116, 101, 109, 112, 116, 115, 32, 124, 32]
+      ] ∧
+    Gen.authResubmitAgain =
+      [
+       -- remote, newAccess, req, resubmissions - 1 | errors.IsAuthError(err) && resubmissions > 0 && len(req.Header.Get("Authorization")) == 0
+       [114, 101, 109, 111, 116, 101, 44, 32, 110, 101, 119, 65, 99, 99, 101, 115, 115, 44, 32, 114, 101, 113, 44, 32, 114, 101, 115, 117, 98, 109, 105, 115, 115, 105, 111, 110, 115, 32, 45, 32, 49, 32, 124, 32, 101, 114, 114, 111, 114, 115, 46, 73, 115, 65, 117, 116, 104, 69, 114, 114, 111, 114, 40, 101, 114, 114, 41, 32, 38, 38, 32, 114, 101, 115, 117, 98, 109, 105, 115, 115, 105, 111, 110, 115, 32, 62, 32, 48, 32, 38, 38, 32, 108, 101, 110, 40, 114, 101, 113, 46, 72, 101, 97, 100, 101, 114, 46, 71, 101, 116, 40, 34, 65, 117, 116, 104, 111, 114, 105, 122, 97, 116, 105, 111, 110, 34, 41, 41, 32, 61, 61, 32, 48]
+      ] := by decide
+
+/-- hence one API request goes out at most four times -/
+theorem api_request_sent_at_most_four_times (again : Nat → Bool) (k : Nat) :
+    AuthLoop.submissions again Gen.defaultMaxAuthAttempts k ≤ 4 := by
+  have h := AuthLoop.submissions_le again Gen.defaultMaxAuthAttempts k
+  have : Gen.defaultMaxAuthAttempts = 3 := by decide
+  omega
 
 end C15
